@@ -91,25 +91,25 @@ Proof. unfold wrap_sqrt_grad_x, sqrt_backward. unfold Rdiv. ring. Qed.
 Notation OV f := (f wrap_add_out wrap_mul_out wrap_pow_out wrap_rpow_out).
 
 Lemma ov_neg_eq a : OV ov_neg a = - a.
-Proof. unfold ov_neg, ov_mul, wrap_mul_out, mul_forward. ring. Qed.
+Proof. unfold ov_neg, ov_mul, wrap_mul_out, mul_forward, ov_wrap_scalar. ring. Qed.
 Lemma ov_sub_eq a b : OV ov_sub a b = a - b.
-Proof. unfold ov_sub, ov_add, ov_neg, ov_mul, wrap_add_out, wrap_mul_out, add_forward, mul_forward. ring. Qed.
+Proof. unfold ov_sub, ov_add, ov_neg, ov_mul, wrap_add_out, wrap_mul_out, add_forward, mul_forward, ov_wrap_scalar. ring. Qed.
 Lemma ov_rsub_eq a o : OV ov_rsub a o = o - a.
-Proof. unfold ov_rsub, ov_radd, ov_add, ov_neg, ov_mul, wrap_add_out, wrap_mul_out, add_forward, mul_forward. ring. Qed.
+Proof. unfold ov_rsub, ov_radd, ov_add, ov_neg, ov_mul, wrap_add_out, wrap_mul_out, add_forward, mul_forward, ov_wrap_scalar. ring. Qed.
 Lemma ov_truediv_eq a b : OV ov_truediv a b = a / b.
 Proof.
-  unfold ov_truediv, ov_mul, ov_pow, wrap_mul_out, wrap_pow_out, mul_forward, pow_forward.
+  unfold ov_truediv, ov_mul, ov_pow, wrap_mul_out, wrap_pow_out, mul_forward, pow_forward, ov_wrap_scalar.
   change (IZR (-1)) with (-1). now rewrite gpow_m1.
 Qed.
 Lemma ov_rtruediv_eq a o : OV ov_rtruediv a o = o / a.
 Proof.
-  unfold ov_rtruediv, ov_rmul, ov_mul, ov_pow, wrap_mul_out, wrap_pow_out, mul_forward, pow_forward.
+  unfold ov_rtruediv, ov_rmul, ov_mul, ov_pow, wrap_mul_out, wrap_pow_out, mul_forward, pow_forward, ov_wrap_scalar.
   change (IZR (-1)) with (-1). rewrite gpow_m1. unfold Rdiv. ring.
 Qed.
 Lemma ov_radd_eq a o : OV ov_radd a o = o + a.
-Proof. unfold ov_radd, ov_add, wrap_add_out, add_forward. ring. Qed.
+Proof. unfold ov_radd, ov_add, wrap_add_out, add_forward, ov_wrap_scalar. ring. Qed.
 Lemma ov_rmul_eq a o : OV ov_rmul a o = o * a.
-Proof. unfold ov_rmul, ov_mul, wrap_mul_out, mul_forward. ring. Qed.
+Proof. unfold ov_rmul, ov_mul, wrap_mul_out, mul_forward, ov_wrap_scalar. ring. Qed.
 
 (* gradients of the expansions: the engine chains the backward closures of the primitive nodes; the
    composite backward maps below are those chains (vjp_comp), and they are the derivatives. *)
@@ -122,14 +122,14 @@ Definition div_grad_other (g a b:R) : R := wrap_pow_grad_x (wrap_mul_grad_x2 g a
 Definition rdiv_grad_self (g a o:R) : R := wrap_pow_grad_x (wrap_mul_grad_x1 g (wrap_pow_out a (IZR (-1))) o) a (IZR (-1)).
 
 Lemma ov_neg_derive a : is_derive (fun t => OV ov_neg t) a (neg_grad_self 1 a).
-Proof. unfold ov_neg, ov_mul, neg_grad_self. apply mul_derive_x1. Qed.
+Proof. unfold ov_neg, ov_mul, neg_grad_self, ov_wrap_scalar. apply mul_derive_x1. Qed.
 
 Lemma ov_sub_derive_self a b : is_derive (fun t => OV ov_sub t b) a (sub_grad_self 1 a b).
-Proof. unfold ov_sub, ov_add, sub_grad_self. apply add_derive_x1. Qed.
+Proof. unfold ov_sub, ov_add, sub_grad_self, ov_wrap_scalar. apply add_derive_x1. Qed.
 
 Lemma ov_sub_derive_other a b : is_derive (fun t => OV ov_sub a t) b (sub_grad_other 1 a b).
 Proof.
-  unfold ov_sub, ov_add, sub_grad_other.
+  unfold ov_sub, ov_add, sub_grad_other, ov_wrap_scalar.
   apply (vjp_comp (fun t => OV ov_neg t) (fun u => wrap_add_out a u)
                   (fun g => neg_grad_self g b) (fun g => wrap_add_grad_x2 g a (OV ov_neg b))).
   - intros g. unfold neg_grad_self. apply mul_linear.
@@ -139,7 +139,7 @@ Qed.
 
 Lemma ov_rsub_derive_self a o : is_derive (fun t => OV ov_rsub t o) a (rsub_grad_self 1 a o).
 Proof.
-  unfold ov_rsub, ov_radd, ov_add, rsub_grad_self.
+  unfold ov_rsub, ov_radd, ov_add, rsub_grad_self, ov_wrap_scalar.
   apply (vjp_comp (fun t => OV ov_neg t) (fun u => wrap_add_out u o)
                   (fun g => neg_grad_self g a) (fun g => wrap_add_grad_x1 g (OV ov_neg a) o)).
   - intros g. unfold neg_grad_self. apply mul_linear.
@@ -148,14 +148,14 @@ Proof.
 Qed.
 
 Lemma ov_truediv_derive_self a b : is_derive (fun t => OV ov_truediv t b) a (div_grad_self 1 a b).
-Proof. unfold ov_truediv, ov_mul, ov_pow, div_grad_self. apply mul_derive_x1. Qed.
+Proof. unfold ov_truediv, ov_mul, ov_pow, div_grad_self, ov_wrap_scalar. apply mul_derive_x1. Qed.
 
 Lemma pow_domain_m1 b : b <> 0 -> pow_domain b (IZR (-1)).
 Proof. intros Hb. left. exists (-1)%Z. split; [reflexivity|now right]. Qed.
 
 Lemma ov_truediv_derive_other a b : b <> 0 -> is_derive (fun t => OV ov_truediv a t) b (div_grad_other 1 a b).
 Proof.
-  intros Hb. unfold ov_truediv, ov_mul, ov_pow, div_grad_other.
+  intros Hb. unfold ov_truediv, ov_mul, ov_pow, div_grad_other, ov_wrap_scalar.
   apply (vjp_comp (fun t => wrap_pow_out t (IZR (-1))) (fun u => wrap_mul_out a u)
                   (fun g => wrap_pow_grad_x g b (IZR (-1))) (fun g => wrap_mul_grad_x2 g a (wrap_pow_out b (IZR (-1))))).
   - intros g. apply pow_linear.
@@ -165,7 +165,7 @@ Qed.
 
 Lemma ov_rtruediv_derive_self a o : a <> 0 -> is_derive (fun t => OV ov_rtruediv t o) a (rdiv_grad_self 1 a o).
 Proof.
-  intros Ha. unfold ov_rtruediv, ov_rmul, ov_mul, ov_pow, rdiv_grad_self.
+  intros Ha. unfold ov_rtruediv, ov_rmul, ov_mul, ov_pow, rdiv_grad_self, ov_wrap_scalar.
   apply (vjp_comp (fun t => wrap_pow_out t (IZR (-1))) (fun u => wrap_mul_out u o)
                   (fun g => wrap_pow_grad_x g a (IZR (-1))) (fun g => wrap_mul_grad_x1 g (wrap_pow_out a (IZR (-1))) o)).
   - intros g. apply pow_linear.
